@@ -49,3 +49,25 @@ theorem removeDim_testBit (position index j : Nat) :
   · rw [Nat.testBit_mod_two_pow]; simp [h]
   · rw [Nat.testBit_div_two_pow]
     congr 1; omega
+
+section
+variable {α : Type} [Field α] [LinearOrder α] [IsStrictOrderedRing α] [FloorRing α] [Inhabited α]
+
+theorem halfIndex_lt_two (i : Ival α) (v : α) : i.halfIndex v < 2 := by
+  unfold Ival.halfIndex; split_ifs <;> omega
+
+theorem childIndex_eq_bitsValue (ivs : List (Ival α)) (vs : List α) :
+    childIndex ivs vs = bitsValue ((List.zip ivs vs).map fun p => p.1.halfIndex p.2) := by
+  simp only [childIndex, bitsValue, List.foldl_map]
+
+/-- bit `d-1-j` of a child index is the half index of dimension `j` — for any number of dimensions. -/
+theorem childIndex_bit (ivs : List (Ival α)) (vs : List α) (hl : ivs.length = vs.length) (j : Nat)
+    (hj : j < ivs.length) :
+    (childIndex ivs vs / 2 ^ (ivs.length - 1 - j)) % 2 = ivs[j].halfIndex (vs[j]'(hl ▸ hj)) := by
+  rw [childIndex_eq_bitsValue]
+  have hlen : ((List.zip ivs vs).map fun p => p.1.halfIndex p.2).length = ivs.length := by simp [hl]
+  have := bitsValue_bit' ((List.zip ivs vs).map fun p => p.1.halfIndex p.2)
+    (by intro b hb; obtain ⟨p, _, rfl⟩ := List.mem_map.mp hb; exact halfIndex_lt_two _ _) ivs.length hlen j (by rw [hlen]; exact hj)
+  rw [this]; simp
+
+end
